@@ -726,8 +726,8 @@ pub fn property() -> Property {
                different keys to the same map or both added the same field, or any xpub relation; distinct by slots.",
         assumptions: &["additions are restricted to fields that do not enter the unsigned transaction id (checked: descendants with a changed id are discarded)"],
         subs: vec![
-            Sub { name: "families", kind: Kind::Tape { max_len: 7000, quick: 6_000, thorough: 200_000, f: families } },
-            Sub { name: "different_ids", kind: Kind::Tape { max_len: 6000, quick: 3_000, thorough: 60_000, f: different_ids } },
+            Sub { name: "families", kind: Kind::Tape { max_len: 7000, quick: 48_000, thorough: 600_000, f: families } },
+            Sub { name: "different_ids", kind: Kind::Tape { max_len: 6000, quick: 24_000, thorough: 180_000, f: different_ids } },
             Sub { name: "xpub_sources", kind: Kind::Index { count: |t| t.pick(8 * 50, 8 * 2000), exhaustive: false, f: xpub_sources } },
         ],
         known: vec![
